@@ -154,7 +154,7 @@ def do_import(form, path):
         elif form == "B":
             parent, _, child = path.rpartition(".")
             ns = {}
-            exec(f"from {parent} import {child} as _m", ns)
+            exec(f"from {parent} import {child} as _m" if parent else f"import {child} as _m", ns)
             m = ns["_m"]
         else:
             raise ValueError(form)
